@@ -128,7 +128,7 @@ pub fn __clone_ltmt(o: &Option<(Lifetime, Mutability)>) -> (r: Option<(Lifetime,
     vf.add(SPEC)
     vf.add("impl TypeName {\n")
     p = Piece(types, types.item("impl TypeName::is_ffi_safe", "fn"))
-    p.contract("        ensures r == spec_ffi_safe(*self),", ret_name="r")
+    p.contract("        ensures r == spec_ffi_safe(*self),\n        decreases self,", ret_name="r")
     vf.add_piece(p, expected="is_ffi_safe")
     p = Piece(types, types.item("impl TypeName::ffi_safe_version", "fn"))
     p.contract("        ensures r == spec_fsv(*self),\n        decreases self,", ret_name="r")
